@@ -200,6 +200,27 @@ Theorem C01_limits_accept_sender :
     c_in c' = c_in c /\ c_self_msat c' = c_self_msat c.
 Proof. exact limits_accept. Qed.
 
+(** Witnesses (vm_compute over the generated code / the closing model) of the two findings recorded in
+    known_findings.json: the property's "limits are honoured by the peer" fails for a non-funder sending to a
+    funder at the boundary (F2), and the funder's own minimum closing fee can exceed its balance, in which case
+    the closing transaction cannot be built (F1). *)
+Theorem C01_limits_sound_peer_refuted :
+  let k := mkChannelConstraints 354 0 354 0 1 100000000 50 in
+  let sender := get_channel_stats false false 100000 1000000 [mkHTLCAmountDirection false 96871999] 0 1000 false
+                  (Some 1000) (1000 * 197628) k CT_Anchors in
+  let receiver_htlcs := [mkHTLCAmountDirection false 1000000; mkHTLCAmountDirection true 96871999] in
+  (exists st, sender = ROk st /\
+     ab_next_outbound_htlc_limit_msat (cs_available_balances st) = 1000000 /\
+     ab_next_outbound_htlc_minimum_msat (cs_available_balances st) <= 1000000) /\
+  is_ok (get_next_commitment_stats true true 100000 99000000 receiver_htlcs 1 1000 false (Some 1000) 354 CT_Anchors) = false /\
+  is_ok (get_next_commitment_stats true true 100000 99000000 receiver_htlcs 0 1000 false (Some 1000) 354 CT_Anchors) = true.
+Proof. exact limit_not_accepted_by_funder_peer_witness. Qed.
+
+Theorem C01_coop_close_refuted_when_fee_exceeds_funder_balance :
+  is_ok (build_closing true false 100000 1540000 3370 354) = false /\
+  is_ok (build_closing true false 100000 1540000 1540 354) = true.
+Proof. exact coop_close_fee_above_funder_balance_witness. Qed.
+
 (** Non-vacuity of the protocol-layer theorems: a well-formed initial pair of channels and a schedule
     (two HTLCs, one through the holding cell, one claimed) that the system accepts, with its result. *)
 Example C01_sys_wf_inhabited : sys_wf ex_sys.
